@@ -122,9 +122,11 @@ class LRTDP(Plans):
             max_val = float('-inf')
             for a in mdp.actions(s):
                 ns_dist = mdp.next_state_dist(s, a)
+                # same action value as self.Q(): absorbing successors are worth 0,
+                # stored values take precedence over the heuristic
                 val = ns_dist.expectation(
-                    lambda ns : mdp.reward(s, a, ns) + mdp.discount_rate*heuristic(ns)
-                ) 
+                    lambda ns : mdp.reward(s, a, ns) + mdp.discount_rate*(0 if mdp.is_absorbing(ns) else res.V[ns])
+                )
                 if val > max_val:
                     max_actions = [a]
                 elif val == max_val:
